@@ -277,4 +277,7 @@ structure LocalTimeTypeSrc where
   timeZoneDesignation : Option TzAsciiStr
   deriving DecidableEq, Repr, Inhabited
 
+/-- `u64::from_ne_bytes` on a little-endian target -/
+def ne_u64 (b : List Nat) : Int := (b.foldr (fun x acc => x + 256 * acc) 0 : Nat)
+
 end TzVerif.Src
